@@ -121,8 +121,10 @@ else:
     def _get_non_none_type(t: Any) -> Any:
         """Extract the non-None type from Optional[T]."""
         if _is_optional(t):
-            args = get_args(t)
-            return next(arg for arg in args if arg is not type(None))
+            args = tuple(arg for arg in get_args(t) if arg is not type(None))
+            # Optional[Union[int, str]] is Union[int, str, None]: keep every
+            # remaining member, not just the first one
+            return args[0] if len(args) == 1 else Union[args]
         return t
 
     def _resolve_type_alias(annotation, field_name=None, class_module=None):
